@@ -19,6 +19,10 @@ enumeration order being its history, and explicitly for each of the 1000 byte pa
 language (letters a..j) and a judged packed region (digits): language reading then region reading, region then
 language (fresh ARSCResTableConfig objects, one process), and both inside one configuration.  A violation is re-run in
 pristine forks (alone, recorded history, shard prefix) and stored with the shortest history that reproduces it.
+History on ONE object: for every ordered pair (first, second) over 15 locale strings of six classes (default, 2-letter,
+packed 3-letter, 2-letter + 2-character region, 2-letter + packed numeric region, 3-letter + region) an object that holds
+`first` (built by the locale= constructor, parsed from a binary config, or set on a default object) is re-encoded with
+set_language_and_region(second) and must equal a fresh object encoded with `second` (and the reference word).
 Oracle: own implementation of AOSP unpackLanguageOrRegion / packLanguageOrRegion (ref_unpack / ref_pack below); the
 reported string must be  <lang>[-r<REGION>]  of the encoded codes, and constructing a configuration from that string
 must give the same 32-bit locale and report the same string again.
@@ -193,6 +197,8 @@ def space(ctx):
             "E_packed_regions": 1000, "E_languages": ["en", "de", "fil(packed)"], "default": 1,
             "histories": {"byte_pairs_with_two_judged_readings": 1000,
                           "orders": ["language then region", "region then language", "both in one configuration"],
+                          "same_object_encoded_twice": {"locales": [v for _, v in REENC], "ordered_pairs": len(REENC) ** 2,
+                                                        "object_built_by": REENC_CTORS},
                           "isolation": "every shard runs in a fork of a pristine process; its call order is its history"},
             "total": 65536 * 4 + 65536 * 2 + 676 * 1297 + 17576 * 3 + 3000 + 1}
 
@@ -205,6 +211,7 @@ def shards(ctx):
     s += [("D", c) for c in LOW[::2]]                    # 13 shards x 2 x 676 x 3
     s += [("E",)]
     s += [("hist", order, block) for order in ("LR", "RL", "same") for block in range(1)]
+    s += [("reenc", ctor) for ctor in REENC_CTORS]
     return s
 
 
@@ -261,10 +268,72 @@ def histories(shard):
             yield [(h, h)], None
 
 
+# history on ONE object: a configuration that already carries a locale is encoded again
+REENC = [("default", "\x00\x00"), ("lang2", "de"), ("lang2", "en"), ("lang2", "zu"), ("lang3", "haw"), ("lang3", "fil"),
+         ("lang3", "ace"), ("lang2+region2", "de-rDE"), ("lang2+region2", "en-rUS"), ("lang2+region2", "pt-rBR"),
+         ("lang2+region3", "es-r419"), ("lang2+region3", "en-r001"), ("lang3+region", "fil-rPH"), ("lang3+region", "haw-rUS"),
+         ("lang3+region", "kok-r419")]
+REENC_CTORS = ["kwargs", "binary", "set"]
+
+
+def ref_locale(s):
+    """Reference encoding of a reported locale string into the 32-bit locale word."""
+    if s == "\x00\x00":
+        return 0
+    lang, _, reg = s.partition("-r")
+    return half(lang, ord("a")) | (half(reg, ord("0")) << 16)
+
+
+def judge_reenc(ax, acc, ctor, first, second, pf=None):
+    """One object that holds `first` (built by the locale= constructor, parsed from a binary config, or set on a default
+    object) gets set_language_and_region(second); it must then be what a fresh object encoded with `second` is."""
+    cls = dict((v, k) for k, v in REENC)
+    try:
+        if ctor == "kwargs":
+            cfg = ax.ARSCResTableConfig(None, locale=first)
+        elif ctor == "binary":
+            cfg = ax.ARSCResTableConfig(io.BytesIO(struct.pack("<IIII", 16, 0, ref_locale(first), 0)))
+        else:
+            cfg = ax.ARSCResTableConfig(None)
+            cfg.set_language_and_region(first)
+        before = cfg.locale
+        cfg.set_language_and_region(second)
+        got = (cfg.locale, cfg.get_language_and_region())
+        fresh = ax.ARSCResTableConfig(None, locale=second)
+        want_fresh = (fresh.locale, fresh.get_language_and_region())
+    except Exception as e:      # noqa
+        before, got, want_fresh = None, e, None
+    want = (ref_locale(second), second)
+    ok = got == want and want_fresh == want
+    acc.case(nontrivial=("reenc", ctor, first, second), outcome=("reenc", cls[first], cls[second], ok))
+    if not ok:
+        if want_fresh is not None and want_fresh != want:
+            key = "%s:pack" % cls[second].split("+")[0]          # not a history effect: the fresh encoding is already wrong
+        else:
+            key = "reencode:%s:after:%s" % (cls[second], cls[first])
+        w = {"history": [["reenc", ctor, first, second]]}
+        if pf:
+            w["_prefix"] = {"shard": list(pf[0]), "upto": pf[1]}
+            w["_pkey"] = key + ":history-dependent"
+        acc.violation(key, w, "object holding %r (%s, locale 0x%s) after set_language_and_region(%r): %r; a fresh object "
+                      "encoded with %r is %r, reference 0x%08x"
+                      % (first, ctor, "%08x" % before if isinstance(before, int) else before, second,
+                         got if isinstance(got, Exception) else ("0x%08x" % got[0], got[1]), second,
+                         want_fresh and ("0x%08x" % want_fresh[0], want_fresh[1]), want[0]))
+
+
 def _run(ctx, ax, shard, acc, stop=None):
     """Execute the shard's sequence; stop=position: run the same sequence but judge only that case (prefix replay)."""
     dummy = Acc()
     n = 0
+    if shard[0] == "reenc":
+        for _, first in REENC:
+            for _, second in REENC:
+                judge_reenc(ax, acc if stop is None or stop == n else dummy, shard[1], first, second, pf=(shard, n))
+                if stop == n:
+                    return
+                n += 1
+        return
     if shard[0] == "hist":
         for calls, after in histories(shard):
             for k, (lh, rh) in enumerate(calls):
@@ -321,8 +390,12 @@ def replay(ctx, w):
     else:
         dummy = Acc()
         hist = [tuple(c) for c in w["history"]]
-        for k, (lh, rh) in enumerate(hist):
-            judge(ax, acc if k == len(hist) - 1 else dummy, lh, rh, history=hist[:k + 1])
+        for k, c in enumerate(hist):
+            sink = acc if k == len(hist) - 1 else dummy
+            if c[0] == "reenc":
+                judge_reenc(ax, sink, c[1], c[2], c[3])
+            else:
+                judge(ax, sink, c[0], c[1], history=hist[:k + 1])
     if acc.viol:
         return "; ".join(v["msg"] for v in acc.viol.values())
     return None
